@@ -712,17 +712,18 @@ theorem simOn_quiet {P : Nat → Prop} {cfg : Cfg} {a : Spec.A} {s s' : State} (
     exact n.idxKeep t u (hs.idxIn u m t hp hm (by rw [← core_subs e]; exact ht)) ⟨m', hm', ao' u m' hm'⟩
   · intro t u hu; exact hs.idxPos t u (n.idxSub t u hu)
 
-/-- the event part of `Nest`: also satisfied by steps that rewrite fields of a table entry without opening or closing
-    anything -/
+/-- the event part of `Nest` (and "the table only shrinks"): also satisfied by steps that rewrite fields of a table entry
+    without opening or closing anything -/
 def Evt (s s' : State) : Prop :=
-  ∃ ext, s'.out = s.out ++ ext ∧ (∀ u, Ev.rd u ∉ ext) ∧ (∀ u, openIn s u → ¬ openIn s' u → Ev.close u ∈ ext)
+  (∃ ext, s'.out = s.out ++ ext ∧ (∀ u, Ev.rd u ∉ ext) ∧ (∀ u, openIn s u → ¬ openIn s' u → Ev.close u ∈ ext)) ∧
+  (s'.mods.map (·.uid)).Sublist (s.mods.map (·.uid))
 
-theorem Nest.evt {s s' : State} (h : Nest s s') : Evt s s' := h.ext
+theorem Nest.evt {s s' : State} (h : Nest s s') : Evt s s' := ⟨h.ext, h.uids⟩
 
 theorem Evt.trans {a b c : State} (h1 : Evt a b) (h2 : Evt b c) : Evt a c := by
-  obtain ⟨e1, o1, r1, c1⟩ := h1
-  obtain ⟨e2, o2, r2, c2⟩ := h2
-  refine ⟨e1 ++ e2, by rw [o2, o1, List.append_assoc], fun u hu => ?_, fun u ha hc => ?_⟩
+  obtain ⟨⟨e1, o1, r1, c1⟩, u1⟩ := h1
+  obtain ⟨⟨e2, o2, r2, c2⟩, u2⟩ := h2
+  refine ⟨⟨e1 ++ e2, by rw [o2, o1, List.append_assoc], fun u hu => ?_, fun u ha hc => ?_⟩, u2.trans u1⟩
   · rcases List.mem_append.mp hu with h | h
     · exact r1 u h
     · exact r2 u h
@@ -730,8 +731,9 @@ theorem Evt.trans {a b c : State} (h1 : Evt a b) (h2 : Evt b c) : Evt a c := by
     · exact List.mem_append.mpr (Or.inr (c2 u hb hc))
     · exact List.mem_append.mpr (Or.inl (c1 u ha hb))
 
-/-- a step that keeps the log and the set of open connections -/
-theorem evt_same {s s' : State} (ho : s'.out = s.out) (hop : ∀ u, openIn s u → openIn s' u) : Evt s s' :=
-  ⟨[], by simp [ho], by simp, fun u h1 h2 => absurd (hop u h1) h2⟩
+/-- a step that keeps the log, the uids of the table and the set of open connections -/
+theorem evt_same {s s' : State} (ho : s'.out = s.out) (hop : ∀ u, openIn s u → openIn s' u)
+    (hu : s'.mods.map (·.uid) = s.mods.map (·.uid) := by rfl) : Evt s s' :=
+  ⟨⟨[], by simp [ho], by simp, fun u h1 h2 => absurd (hop u h1) h2⟩, by rw [hu]; exact List.Sublist.refl _⟩
 
 end Pyrtma.Mgr
